@@ -123,6 +123,11 @@ func boolFactsOfBlock(b *ssa.BasicBlock, ctx bool) []BoolFact {
 		subj, pol := BoolSubject(subj)
 		val = val == pol
 		out = append(out, BoolFact{subj, val})
+		// p() known true/false, p a predicate function of the same package: what its returning that value implies
+		if cl, ok := subj.(*ssa.Call); ok && !seen[cl] {
+			seen[cl] = true
+			out = append(out, predicateImplies(cl, val, 0)...)
+		}
 		// a && b  ==  phi [false, ..., b]  known true  =>  b true, and the facts of b's block
 		// a || b  ==  phi [true, ..., b]   known false =>  b false, and the facts of b's block
 		if phi, ok := subj.(*ssa.Phi); ok && !seen[phi] {
@@ -639,4 +644,80 @@ func ErrDerives(v ssa.Value, src ValPred) bool {
 		return false
 	}
 	return rec(v)
+}
+
+
+// predicateImplies: the call cl of a boolean function of the same package returned val; the facts that hold inside the
+// callee on every return that can yield val (the conjuncts of `return a && b` for true, a guard's negation for an early
+// `return false`, ...). Only facts common to all such returns are reported (compared by value identity, so in practice
+// the single-expression predicates that refactorings extract).
+func predicateImplies(cl *ssa.Call, val bool, depth int) []BoolFact {
+	callee := cl.Call.StaticCallee()
+	if callee == nil || len(callee.Blocks) == 0 || depth > 2 {
+		return nil
+	}
+	res := callee.Signature.Results()
+	if res.Len() != 1 {
+		return nil
+	}
+	if b, ok := res.At(0).Type().Underlying().(*types.Basic); !ok || b.Kind() != types.Bool {
+		return nil
+	}
+	rootPkg := func(f *ssa.Function) *ssa.Package {
+		for f.Parent() != nil {
+			f = f.Parent()
+		}
+		return f.Pkg
+	}
+	if cl.Parent() == nil || rootPkg(callee) == nil || rootPkg(callee) != rootPkg(cl.Parent()) {
+		return nil
+	}
+	var alts [][]BoolFact
+	var expand func(v ssa.Value, at *ssa.BasicBlock, seen map[ssa.Value]bool)
+	expand = func(v ssa.Value, at *ssa.BasicBlock, seen map[ssa.Value]bool) {
+		if cv, isC := ConstCond(v); isC {
+			if cv == val {
+				alts = append(alts, boolFactsOfBlock(at, false))
+			}
+			return
+		}
+		if phi, ok := v.(*ssa.Phi); ok && !seen[phi] {
+			seen[phi] = true
+			for i, e := range phi.Edges {
+				expand(e, phi.Block().Preds[i], seen)
+			}
+			return
+		}
+		subj, pol := BoolSubject(v)
+		fs := append([]BoolFact{{subj, val == pol}}, boolFactsOfBlock(at, false)...)
+		if c2, ok := subj.(*ssa.Call); ok {
+			fs = append(fs, predicateImplies(c2, val == pol, depth+1)...)
+		}
+		alts = append(alts, fs)
+	}
+	for _, b := range callee.Blocks {
+		if len(b.Instrs) == 0 {
+			continue
+		}
+		if ret, ok := b.Instrs[len(b.Instrs)-1].(*ssa.Return); ok && len(ret.Results) == 1 {
+			expand(ret.Results[0], b, map[ssa.Value]bool{})
+		}
+	}
+	if len(alts) == 0 {
+		return nil
+	}
+	out := alts[0]
+	for _, a := range alts[1:] {
+		var keep []BoolFact
+		for _, f := range out {
+			for _, g := range a {
+				if f.Subj == g.Subj && f.Val == g.Val {
+					keep = append(keep, f)
+					break
+				}
+			}
+		}
+		out = keep
+	}
+	return out
 }
